@@ -97,7 +97,7 @@ def _loop_sig(body_events):
                     continue
                 ev.append(('do', _demsg(k)))
             elif e[0] == 'aug':
-                ev.append(('aug', e[1], e[2], e[3]))
+                pass    # the store event carries the same information
             elif e[0] == 'loop':
                 ev.append(('loop', e[1], _loop_sig(e[2])))
         out.append((frozenset(conds), tuple(ev), o))
